@@ -114,7 +114,7 @@ func (ic *importClient) Send(ctx context.Context, s capnp.Send) (*capnp.Answer, 
 	ic.c.mu.Lock()
 	ic.c.unlockSender() // Can't be holding either lock while calling PlaceArgs.
 	ic.c.mu.Unlock()
-	err = ic.c.newImportCallMessage(msg, ic.id, q.id, s)
+	err = ic.c.newImportCallMessage(msg, ic.id, q, s)
 	if err != nil {
 		ic.c.mu.Lock()
 		ic.c.questions[q.id] = nil
@@ -161,7 +161,8 @@ func (ic *importClient) Send(ctx context.Context, s capnp.Send) (*capnp.Answer, 
 // newImportCallMessage builds a Call message targeted to an import.
 //
 // The caller MUST NOT be holding onto c.mu or the sender lock.
-func (c *Conn) newImportCallMessage(msg rpccp.Message, imp importID, qid questionID, s capnp.Send) error {
+func (c *Conn) newImportCallMessage(msg rpccp.Message, imp importID, q *question, s capnp.Send) error {
+	qid := q.id
 	call, err := msg.NewCall()
 	if err != nil {
 		return errorf("build call message: %v", err)
@@ -199,8 +200,7 @@ func (c *Conn) newImportCallMessage(msg rpccp.Message, imp importID, qid questio
 	}
 	clients, states := extractCapTable(m)
 	c.mu.Lock()
-	// TODO(soon): save param refs
-	_, err = c.fillPayloadCapTable(payload, clients, states)
+	q.paramCaps, err = c.fillPayloadCapTable(payload, clients, states)
 	c.mu.Unlock()
 	releaseList(clients).release()
 	if err != nil {
